@@ -430,6 +430,9 @@ struct Psar {
 	prev_trend: i8,
 	lost: bool,
 	mag: f64,
+	/// the stop is a bit-exact copy of an input (set from an extreme on a flip, or clamped to a low/high by a clear
+	/// margin) as opposed to the rounded result of `sar + af·(ep − sar)`: only then are ties with a price decided
+	sar_exact: bool,
 }
 impl RefInd for Psar {
 	fn next(&mut self, c: &TC) -> (Vec<T>, Vec<Sig>) {
@@ -444,7 +447,7 @@ impl RefInd for Psar {
 				self.high = h;
 				self.inc += 1.0;
 			}
-			if near(l, self.sar) && l != self.sar {
+			if near(l, self.sar) && !self.sar_exact {
 				self.lost = true;
 			}
 			if l < self.sar {
@@ -452,13 +455,14 @@ impl RefInd for Psar {
 				self.low = l;
 				self.inc = 1.0;
 				self.sar = self.high;
+				self.sar_exact = true;
 			}
 		} else {
 			if self.low > l {
 				self.low = l;
 				self.inc += 1.0;
 			}
-			if near(h, self.sar) && h != self.sar {
+			if near(h, self.sar) && !self.sar_exact {
 				self.lost = true;
 			}
 			if h > self.sar {
@@ -466,6 +470,7 @@ impl RefInd for Psar {
 				self.high = h;
 				self.inc = 1.0;
 				self.sar = self.low;
+				self.sar_exact = true;
 			}
 		}
 		if self.lost {
@@ -474,9 +479,16 @@ impl RefInd for Psar {
 		let (trend, sar) = (self.trend, self.sar);
 		let af = self.af_max.min(self.af_step * self.inc);
 		if self.trend > 0 {
-			self.sar = (self.sar + af * (self.high - self.sar)).min(l).min(self.prev[2].v);
+			let raw = self.sar + af * (self.high - self.sar);
+			let bound = l.min(self.prev[2].v);
+			// clamped by a clear margin: both evaluations of `raw` agree that the clamp is active
+			self.sar_exact = raw > bound && !near(raw, bound);
+			self.sar = raw.min(bound);
 		} else {
-			self.sar = (self.sar + af * (self.low - self.sar)).max(h).max(self.prev[1].v);
+			let raw = self.sar + af * (self.low - self.sar);
+			let bound = h.max(self.prev[1].v);
+			self.sar_exact = raw < bound && !near(raw, bound);
+			self.sar = raw.max(bound);
 		}
 		self.prev = *c;
 		let signal = if self.prev_trend != trend { trend } else { 0 };
@@ -1035,6 +1047,7 @@ pub fn make_refind2(name: &str, cfg: &Value, first: &TC) -> Option<Box<dyn RefIn
 			prev_trend: 0,
 			lost: false,
 			mag: c0[1].v.abs(),
+			sar_exact: true,
 		}),
 		"PivotReversalStrategy" => {
 			let (l, r) = (cu(cfg, "left"), cu(cfg, "right"));
